@@ -137,5 +137,22 @@ func Solve(vc *VC, o *Obligation, secs int, thorough bool, tag string) SolveResu
 	if !definite(best) && best.Status != "disagree" {
 		best.Secs = total
 	}
+	// A counterexample claim must be reproducible: a sat that did not come from z3-new is
+	// re-checked with z3-new alone (no race, no load from the losing solvers); if z3-new
+	// does not confirm it the answer is unknown. (Observed: z3 4.8.12 occasionally answers
+	// sat within milliseconds on quantified goals it otherwise times out on.)
+	if best.Status == "sat" && best.Solver != solvers[0].name {
+		r := runSolver(context.Background(), solvers[0], q, secs, tag+"c")
+		switch r.Status {
+		case "sat":
+			r.All = all
+			return r
+		case "unsat":
+			best.Status = "disagree"
+		default:
+			best.Status = "unknown"
+			best.Model = ""
+		}
+	}
 	return best
 }
